@@ -336,8 +336,9 @@ class Obj(Shape):
     fields: name -> Shape;  ghost: name -> Shape (specification-only state);
     native: callable(fieldvalues dict) -> real object, for T3/replay.
     """
-    def __init__(self, cls, fields=None, ghost=None, native=None, where=None, closed=False):
+    def __init__(self, cls, fields=None, ghost=None, native=None, where=None, closed=False, complete=False):
         self.cls, self.fields, self.ghost, self.native = cls, dict(fields or {}), dict(ghost or {}), native
+        self.complete = complete  # the fields are ALL instance attributes of the object: reading any other name is an AttributeError
         self.closed = closed     # reads clause: the function may read only the declared fields of this object
         self.where = where   # optional lambda over the object: shape invariant (symbolic assume / native filter)
 
@@ -353,7 +354,7 @@ class Obj(Shape):
         for combo in itertools.product(*alts):
             f = {n: s for n, s in zip(names, combo) if n in self.fields}
             g = {n: s for n, s in zip(names, combo) if n in self.ghost}
-            out.append(Obj(self.cls, f, g, self.native, self.where, self.closed))
+            out.append(Obj(self.cls, f, g, self.native, self.where, self.closed, self.complete))
         return out
 
     def enum(self, budget=3):
